@@ -80,11 +80,15 @@ DecimalEnd(x, i) ==
        THEN LET f == RunEnd(x, n + 1, IsDigit)  e == ExpEnd(x, f) IN IF e = 0 THEN f ELSE e
        ELSE ExpEnd(x, n)
 \* '...' with '' as escaped quote: index after the closing quote, or 0 if unterminated
-RECURSIVE StrScan(_, _)
-StrScan(x, p) == IF p > Len(x) THEN 0
-                 ELSE IF x[p] = Quote1 THEN (IF Ch(x, p + 1) = Quote1 THEN StrScan(x, p + 2) ELSE p + 1)
-                 ELSE StrScan(x, p + 1)
-StringEnd(x, i) == IF Ch(x, i) = Quote1 THEN StrScan(x, i + 1) ELSE 0
+\* The real token is the regular expression  '([^']|'')*'  matched greedily WITH backtracking: when the scan runs
+\* off the end of the text without a closing quote, the last doubled quote seen is split - its first quote closes
+\* the literal ('s'' is the string 's' followed by a stray quote).  lastPair: position of that quote, 0 if none.
+RECURSIVE StrScan(_, _, _)
+StrScan(x, p, lastPair) ==
+                 IF p > Len(x) THEN (IF lastPair = 0 THEN 0 ELSE lastPair + 1)
+                 ELSE IF x[p] = Quote1 THEN (IF Ch(x, p + 1) = Quote1 THEN StrScan(x, p + 2, p) ELSE p + 1)
+                 ELSE StrScan(x, p + 1, lastPair)
+StringEnd(x, i) == IF Ch(x, i) = Quote1 THEN StrScan(x, i + 1, 0) ELSE 0
 RECURSIVE Unescape(_)
 Unescape(s) == IF s = <<>> THEN <<>>
                ELSE IF s[1] = Quote1 THEN <<Quote1>> \o Unescape(SubSeq(s, 3, Len(s)))   \* a doubled quote
@@ -141,16 +145,13 @@ LexOne(x, i) ==
      << <<CASE c = 40 -> "(" [] c = 41 -> ")" [] c = 44 -> "," [] c = 47 -> "/" [] c = 58 -> ":" [] c = 61 -> "=">>, i + 1 >>
   ELSE IF GuidEnd(x, i) # 0 THEN << <<"lit", "GUID", Slice(x, i, i + 36)>>, i + 36 >>
   ELSE IF IsAlpha(c) \/ c = 95 THEN
-     IF MatchCI(x, i, DurationKw) THEN
-        LET b == DurBodyEnd(x, i + 9) IN
-        IF b # 0 /\ Ch(x, b) = Quote1
-        THEN << <<"lit", "Duration", UpperSeq(Slice(x, i + 9, b))>>, b + 1 >>
-        ELSE <<"unknown">>                      \* malformed duration literal: no verdict
-     ELSE IF MatchCI(x, i, GeographyKw) THEN
-        LET e == StringEnd(x, i + 9) IN
-        IF e = 0 THEN <<"lexerror">>
+     \* duration'..' / geography'..' that do not have the shape of the literal are the WORD duration / geography
+     \* followed by whatever comes next (the token alternatives are tried in turn)
+     IF MatchCI(x, i, DurationKw) /\ DurBodyEnd(x, i + 9) # 0 /\ Ch(x, DurBodyEnd(x, i + 9)) = Quote1 THEN
+        LET b == DurBodyEnd(x, i + 9) IN << <<"lit", "Duration", UpperSeq(Slice(x, i + 9, b))>>, b + 1 >>
+     ELSE IF MatchCI(x, i, GeographyKw) /\ StringEnd(x, i + 9) # 0 THEN
         \* the body is kept verbatim: a doubled quote inside it stays doubled (unlike in a string literal)
-        ELSE << <<"lit", "Geography", Slice(x, i + 10, e - 1)>>, e >>
+        LET e == StringEnd(x, i + 9) IN << <<"lit", "Geography", Slice(x, i + 10, e - 1)>>, e >>
      ELSE
         LET e == WordEnd(x, i)
             w == Slice(x, i, e)
@@ -169,6 +170,7 @@ LexOne(x, i) ==
      ELSE IF DecimalEnd(x, i) # 0 THEN << <<"lit", "Float", Slice(x, i, DecimalEnd(x, i))>>, DecimalEnd(x, i) >>
      ELSE << <<"lit", "Integer", Slice(x, i, IntEnd(x, i))>>, IntEnd(x, i) >>
   ELSE IF c = 45 THEN << <<"neg">>, i + 1 >>
+  ELSE IF c = 43 /\ i < Len(x) /\ ~IsAscii(x[i + 1]) THEN <<"unknown">>     \* a sign before a non-ASCII (possibly digit) character
   ELSE <<"lexerror">>
 
 RECURSIVE LexFrom(_, _, _)
